@@ -109,3 +109,39 @@ def post_inplace_agrees_view(r):
     m = getattr(cpy, r.mname)
     r2 = m(*r.margs, inplace=True)
     return view_texts(r2, r.k) == view_texts(r.result, r.k)
+
+
+# ------------------------------------------------------------------------------------------ Z3: AnsiStr iteration
+def post_siter_advances(r):
+    return r.self.current_idx == r.old_self.current_idx + 1 and r.self.s is r.the_string
+
+
+def post_siter_result(r):
+    """yields the AnsiStr counterpart of the one-character slice at that index"""
+    j = r.old_self.current_idx + 1
+    ref = r.old_self.s[j]
+    return equiv(r.result, ref)
+
+
+def post_siter_in_range(r):
+    return r.old_self.current_idx + 1 < len(r.old_self.s._s)
+
+
+def raises_siter_stop(r):
+    return r.old_self.current_idx + 1 >= len(r.old_self.s._s)
+
+
+def post_siter_start(r):
+    return r.result.current_idx == -1 and r.result.s is r.self._s
+
+
+# ------------------------------------------------------------------------------------------ Z4 / Z6: join and the list-valued wrappers
+def post_sjoin_equiv(r):
+    ref = r.AnsiString.join(*r.old_args)
+    return equiv(r.result, ref)
+
+
+def post_list_wrapper_equiv(r):
+    m = getattr(r.old_self._s, r.mname)
+    ref = m(*r.margs)
+    return equiv(r.result, ref)
